@@ -11,3 +11,5 @@ import TFV.Properties.Src.Elitism
 #print axioms TFV.SrcTie.C02_src_de_greedy
 #print axioms TFV.SrcTie.C02_src_de_greedy_slot
 #print axioms TFV.SrcTie.C02_src_evaluation_step
+#print axioms TFV.SrcTie.C02_src_de_record_step
+#print axioms TFV.SrcTie.C02_src_shaga_record_step
